@@ -219,6 +219,11 @@ class Library:
             return abs(x)
 
         def b_sum(xs, start=0):
+            from .values import SymList
+            if isinstance(xs, SymList):
+                if "time" in xs.name.lower():
+                    return Opaque("time")
+                raise OutOfReach("sum of an abstract list")
             tot = start
             for x in xs:
                 tot = tot + x
